@@ -156,7 +156,7 @@ def write_replay(outdir, name, job, model):
     """Writes vector + test + overlay for one model; returns the replay directory path."""
     d = os.path.join(outdir, name)
     os.makedirs(d, exist_ok=True)
-    vec = {"params": job["params"], "draws": model or []}
+    vec = {"params": job["params"], "sparams": job.get("sparams") or [], "draws": model or []}
     json.dump(vec, open(os.path.join(d, "vector.json"), "w"), indent=1)
     pkg = job["pkg"]
     test = TEST_TMPL % {"pkgname": pkg_name(pkg), "entry": job["entry"]}
